@@ -63,7 +63,39 @@ Restart ==
     /\ S' = ObsStore(Ev.obs)
     /\ UNCHANGED done
 
-Next == Reset \/ Submit \/ Restart
+(***************************************************************************)
+(* Concurrent part.  One event per scenario:                                *)
+(*  {"ev":"Conc","nm":M,"chains":[{"p":member,"subs":[{round,credit,snaps,  *)
+(*    res,tries}..],"off":o,"seen":[ids]}..],"lead":[[..]..],"sign":[[..]..]}*)
+(* Each chain (goroutine) ran its monotone script through the real          *)
+(* WriteRoundWork, retrying on badger.ErrConflict like kernel/mint.go; the  *)
+(* counters of all M members were read back when all had finished.          *)
+(* Judged by Work!WorkInvAll: every snapshot of a successful submission of a *)
+(* credited round counts exactly once, whatever the interleaving.           *)
+(***************************************************************************)
+\* TLC evaluates set constructors with dependent bounds through a UNION
+ConcDoneOf(ch) ==
+    UNION { { [id |-> ch.subs[i].snaps[j].id, day |-> ch.subs[i].snaps[j].day,
+               signers |-> SeqToSet(ch.subs[i].snaps[j].signers), credit |-> ch.subs[i].credit] :
+                 j \in DOMAIN ch.subs[i].snaps } :
+            i \in { x \in DOMAIN ch.subs : ch.subs[x].res = "ok" } }
+
+Conc ==
+    /\ IsEvent("Conc")
+    /\ LET e     == Ev
+           dones == [k \in DOMAIN e.chains |-> ConcDoneOf(e.chains[k])]
+           prop  == [k \in DOMAIN e.chains |-> e.chains[k].p] IN
+        /\ WorkInvAll(dones, prop, e.lead, e.sign, 1..e.nm)
+        /\ Mode = "full" =>
+              \A k \in DOMAIN e.chains :
+                 LET ch == e.chains[k] IN
+                 /\ \A i \in DOMAIN ch.subs : ch.subs[i].res = "ok"
+                 /\ ch.subs # <<>> =>
+                       /\ ch.off = ch.subs[Len(ch.subs)].round
+                       /\ SeqToSet(ch.seen) = { ch.subs[Len(ch.subs)].snaps[j].id : j \in DOMAIN ch.subs[Len(ch.subs)].snaps }
+    /\ UNCHANGED <<S, done>>
+
+Next == Reset \/ Submit \/ Restart \/ Conc
 Spec == Init /\ [][Next]_vars
 
 HW == HighWaterOf(l)
